@@ -367,7 +367,9 @@ class BufferedFile(ClosingContextManager):
 
         :returns: file position (`number <int>` of bytes).
         """
-        return self._pos
+        # data still sitting in the write buffer has been written as far as
+        # the caller is concerned.
+        return self._pos + self._wbuffer.tell()
 
     def write(self, data):
         """
